@@ -140,6 +140,14 @@ func runC13(c *Ctx) {
 			if callee := call.Common().StaticCallee(); callee != nil && callee == clientExchange(w) {
 				ex := w.Expr(call.Common().Args[1])
 				okReq = strings.Contains(ex, "builtin:append") && strings.Contains(ex, "conv<[]byte>(p1)")
+				if !okReq {
+					// any way of writing code ++ slot
+					if parts, ok := w.byteSeq(fn, call.Common().Args[1], 0); ok && len(parts) == 2 && parts[0].one != nil && parts[1].many != nil {
+						_, isK := intConst(w.canon(fn, parts[0].one))
+						me := w.Expr(parts[1].many)
+						okReq = isK && (me == "p1" || me == "conv<[]byte>(p1)")
+					}
+				}
 			}
 		}
 		c.Check(okReq, "R2.passthrough", "client."+name+"|slot name appended to the code", w.FnPos(fn), "append([]byte{code}, []byte(slot)...)", "the request does not carry the caller's slot name")
